@@ -49,7 +49,8 @@ def hashTree : Term → HTree
   | .var n T => .tup [.str "VAR", .str n, tyHash T]
   | .const n T => .tup [.str "CONST", .str n, tyHash T]
   | .comb f a =>
-    let generic := HTree.tup [.str "COMB", hashTree f, hashTree a]
+    -- a thunk: the compiled code must not evaluate `hashTree a` twice per level
+    let generic : Unit → HTree := fun _ => .tup [.str "COMB", hashTree f, hashTree a]
     match f with
     | .comb (.const c _) p =>
       if c == "conj" then .tup [.str "CONJ", hashTree p, hashTree a]
@@ -57,9 +58,9 @@ def hashTree : Term → HTree
       else if c == "Let" then
         match a with
         | .abs _ S body => .tup [.str "LET", hashTree p, tyHash S, hashTree body]
-        | _ => generic
-      else generic
-    | _ => generic
+        | _ => generic ()
+      else generic ()
+    | _ => generic ()
   | .abs _ T b => .tup [.str "ABS", tyHash T, hashTree b]
   | .bound i => .tup [.str "BOUND", .nat i]
 
